@@ -287,6 +287,24 @@ impl Property for C19 {
                     },
                 }
             }
+            // a combinator of the glob alone is the glob: same matches, same complete text, same
+            // answers to the queries a combinator has
+            {
+                let alone = wax::any([gs[0].clone()]).map_err(|e| format!("any([`{}`]) fails: {}", texts[0], e))?;
+                let g = &gs[0];
+                let q = (format!("{:?}", g.depth()), format!("{:?}", g.text()), format!("{:?}", g.has_root()), format!("{:?}", g.is_exhaustive()));
+                let qa = (format!("{:?}", alone.depth()), format!("{:?}", alone.text()), format!("{:?}", alone.has_root()), format!("{:?}", alone.is_exhaustive()));
+                if q != qa {
+                    return Err(format!("any([`{}`]) answers the queries differently from the glob itself: {:?} vs {:?}", texts[0], qa, q));
+                }
+                for p in &case.paths {
+                    let c = CandidatePath::from(p.as_str());
+                    let (mg, ma) = (g.matched(&c).map(|m| m.complete().to_string()), alone.matched(&c).map(|m| m.complete().to_string()));
+                    if g.is_match(p.as_str()) != alone.is_match(p.as_str()) || mg != ma {
+                        return Err(format!("any([`{}`]) differs from the glob itself on {:?}: is_match {} vs {}", texts[0], p, alone.is_match(p.as_str()), g.is_match(p.as_str())));
+                    }
+                }
+            }
             // the split-nested route may group differently: only matching must agree
             if let (Ok(s), Some(b)) = (a_split.as_ref(), &base) {
                 for (i, p) in case.paths.iter().enumerate() {
